@@ -103,7 +103,7 @@ def C03(tier):
         "items": 300000 * (1 if tier == "quick" else 8),
         "cross_thread_handoffs": 20000,
         "hierarchy_domains": 40,
-        "workloop_domains": 10,
+        "workloop_domains": 3,
         "site:_dispatch_workloop_invoke2:0": 1,
         "gate_trials": 20,
     }
